@@ -1,4 +1,5 @@
 import PhpVerif.Model.Fmt
+import PhpVerif.Model.Traverse
 /-
 Lemmas about the formatter model (Model/Fmt.lean), for every instruction list:
   * the skeleton of a tree (`skel`: trivia and positions erased in the fields a method provably
@@ -789,5 +790,374 @@ theorem fmtForest_skel : ∀ (ts : List Tree), fmtForest c (skelForest h dT dK t
     rw [this]
 end
 end main
+
+end PhpVerif.Fmt
+
+/-! ### formatting keeps the nodes: kinds, values and children of the formatted tree are those of the tree -/
+namespace PhpVerif.Fmt
+open PhpVerif
+
+mutual
+/-- the program without its tokens: kind, byte values, children, which slices are non-nil -/
+def shape : Tree → Tree
+  | .mk k _ _ _ vals kids nn => .mk k 0 none [] vals (shapeSlots kids) nn
+def shapeSlots : List (List Tree) → List (List Tree)
+  | [] => []
+  | f :: fs => shapeForest f :: shapeSlots fs
+def shapeForest : List Tree → List Tree
+  | [] => []
+  | t :: ts => shape t :: shapeForest ts
+end
+
+mutual
+/-- no node of kind h (inline HTML) anywhere -/
+def noKind (h : Nat) : Tree → Bool
+  | .mk k _ _ _ _ kids _ => k != h && noKindSlots h kids
+def noKindSlots (h : Nat) : List (List Tree) → Bool
+  | [] => true
+  | f :: fs => noKindForest h f && noKindSlots h fs
+def noKindForest (h : Nat) : List Tree → Bool
+  | [] => true
+  | t :: ts => noKind h t && noKindForest h ts
+end
+
+theorem shapeSlots_field (kids : List (List Tree)) (f : Nat) :
+    fieldAt (shapeSlots kids) f = shapeForest (fieldAt kids f) := by
+  induction kids generalizing f with
+  | nil => simp [shapeSlots, fieldAt, shapeForest]
+  | cons x xs ih =>
+    cases f with
+    | zero => simp [shapeSlots, fieldAt]
+    | succ f => simpa [shapeSlots, fieldAt] using ih f
+
+theorem noKindSlots_field (h : Nat) (kids : List (List Tree)) (f : Nat) (hk : noKindSlots h kids = true) :
+    noKindForest h (fieldAt kids f) = true := by
+  induction kids generalizing f with
+  | nil => simp [fieldAt, noKindForest]
+  | cons x xs ih =>
+    simp only [noKindSlots, Bool.and_eq_true] at hk
+    cases f with
+    | zero => simpa [fieldAt] using hk.1
+    | succ f => simpa [fieldAt] using ih f hk.2
+
+/-- a list of child formatters that keep the shape of the children `ts` they stand for -/
+def KeepShape (c : FCfg) (ts : List Tree) (fns : List KFn) : Prop :=
+  fns = fmtForest c ts ∧ noKindForest c.htmlKind ts = true ∧
+  ∀ t ∈ ts, ∀ s t' s', fmtTree c t s = some (t', s') → shape t' = shape t
+
+theorem acceptAll_shape (c : FCfg) (pre post : List Ws) : ∀ (ts : List Tree) (s : FSt) (out : List Tree) (s' : FSt),
+    (∀ t ∈ ts, ∀ s t' s', fmtTree c t s = some (t', s') → shape t' = shape t) →
+    acceptAll pre post (fmtForest c ts) s = some (out, s') → shapeForest out = shapeForest ts
+  | [], s, out, s', _, h => by simp [fmtForest, acceptAll] at h; rw [h.1]
+  | t :: ts, s, out, s', hk, h => by
+    simp only [fmtForest, acceptAll] at h
+    split at h
+    · cases h
+    · rename_i t1 s1 h1
+      split at h
+      · cases h
+      · rename_i ts1 s2 h2
+        cases h
+        have e1 := hk t (List.mem_cons_self) _ _ _ h1
+        have e2 := acceptAll_shape c pre post ts _ _ _ (fun x hx => hk x (List.mem_cons_of_mem _ hx)) h2
+        simp [shapeForest, e1, e2]
+
+theorem sepAll_shape (c : FCfg) (pre : List Ws) (id : Nat) (lit : List Nat) (post : List Ws) :
+    ∀ (ts : List Tree) (s : FSt) (out : List Tree) (tks : List Tok) (s' : FSt),
+    (∀ t ∈ ts, ∀ s t' s', fmtTree c t s = some (t', s') → shape t' = shape t) →
+    sepAll c pre id lit post (fmtForest c ts) s = some (out, tks, s') → shapeForest out = shapeForest ts
+  | [], s, out, tks, s', _, h => by simp [fmtForest, sepAll] at h; rw [h.1]
+  | [t], s, out, tks, s', hk, h => by
+    simp only [fmtForest, sepAll] at h
+    split at h
+    · cases h
+    · rename_i t1 s1 h1
+      cases h
+      simp [shapeForest, hk t (List.mem_cons_self) _ _ _ h1]
+  | t :: u :: ts, s, out, tks, s', hk, h => by
+    simp only [fmtForest, sepAll] at h
+    split at h
+    · cases h
+    · rename_i t1 s1 h1
+      split at h
+      · cases h
+      · rename_i ts1 tks1 s3 h2
+        cases h
+        have e1 := hk t (List.mem_cons_self) _ _ _ h1
+        have e2 := sepAll_shape c pre id lit post (u :: ts) _ _ _ _ (fun x hx => hk x (List.mem_cons_of_mem _ hx))
+          (by simpa [fmtForest] using h2)
+        simp only [shapeForest] at e2 ⊢
+        rw [e1, e2]
+
+theorem stmtsAll_shape (c : FCfg) : ∀ (ts : List Tree) (s : FSt) (out : List Tree) (s' : FSt),
+    noKindForest c.htmlKind ts = true →
+    (∀ t ∈ ts, ∀ s t' s', fmtTree c t s = some (t', s') → shape t' = shape t) →
+    stmtsAll c (fmtForest c ts) s = some (out, s') → shapeForest out = shapeForest ts
+  | [], s, out, s', _, _, h => by simp [fmtForest, stmtsAll] at h; rw [h.1]
+  | t :: ts, s, out, s', hn, hk, h => by
+    simp only [noKindForest, Bool.and_eq_true] at hn
+    have hkind : (t.kind == c.htmlKind) = false := by
+      cases t with
+      | mk k u p toks vals kids nn =>
+        have := hn.1
+        simp only [noKind, Bool.and_eq_true, bne_iff_ne, ne_eq] at this
+        simpa [Tree.kind] using this.1
+    simp only [fmtForest, stmtsAll, hkind] at h
+    simp only [Bool.false_eq_true, if_false] at h
+    split at h
+    · cases h
+    · rename_i t1 s1 h1
+      split at h
+      · cases h
+      · rename_i ts1 s2 h2
+        cases h
+        have e1 := hk t (List.mem_cons_self) _ _ _ h1
+        have e2 := stmtsAll_shape c ts _ _ _ hn.2 (fun x hx => hk x (List.mem_cons_of_mem _ hx)) h2
+        simp [shapeForest, e1, e2]
+
+end PhpVerif.Fmt
+
+namespace PhpVerif.Fmt
+open PhpVerif
+
+theorem getOv_setOv_other {α} (l : List (Option α)) (f g : Nat) (v : α) (h : f ≠ g) : getOv (setOv l f v) g = getOv l g := by
+  induction l generalizing f g with
+  | nil =>
+    induction f generalizing g with
+    | zero =>
+      cases g with
+      | zero => exact absurd rfl h
+      | succ g => simp [setOv, getOv]
+    | succ f ih =>
+      cases g with
+      | zero => simp [setOv, getOv]
+      | succ g =>
+        have := ih g (by omega)
+        simpa [setOv, getOv] using this
+  | cons x r ih =>
+    cases f with
+    | zero =>
+      cases g with
+      | zero => exact absurd rfl h
+      | succ g => simp [setOv, getOv]
+    | succ f =>
+      cases g with
+      | zero => simp [setOv, getOv]
+      | succ g =>
+        have := ih f g (by omega)
+        simpa [setOv, getOv] using this
+
+mutual
+/-- the child fields an instruction list visits with `n.F.Accept(f)` (single-child fields) -/
+def acceptsI : FI → List Nat
+  | .accept f => [f]
+  | .ite _ a b => acceptsIs a ++ acceptsIs b
+  | _ => []
+def acceptsIs : List FI → List Nat
+  | [] => []
+  | i :: r => acceptsI i ++ acceptsIs r
+end
+
+/-- what has been formatted so far has the shape of the children it replaces -/
+def KwOK (kids : List (List Tree)) (kw : List (Option (List Tree))) : Prop :=
+  ∀ f l, getOv kw f = some l → shapeForest l = shapeForest (fieldAt kids f)
+
+theorem KwOK.set {kids kw} (h : KwOK kids kw) (f : Nat) (l : List Tree) (hl : shapeForest l = shapeForest (fieldAt kids f)) :
+    KwOK kids (setOv kw f l) := by
+  intro g l' hg
+  by_cases hfg : f = g
+  · subst hfg
+    rw [getOv_setOv_same] at hg
+    cases hg
+    exact hl
+  · rw [getOv_setOv_other _ _ _ _ hfg] at hg
+    exact h g l' hg
+
+section shapeExec
+variable (c : FCfg) (orig : List (List Tok)) (vals : List (Option Bytes)) (nn : List Bool) (kids : List (List Tree))
+variable (hk : ∀ f, ∀ t ∈ fieldAt kids f, ∀ s t' s', fmtTree c t s = some (t', s') → shape t' = shape t)
+variable (hn : noKindSlots c.htmlKind kids = true)
+include hk hn
+
+mutual
+theorem execI_kw : ∀ (i : FI) (n n' : NSt), (∀ f ∈ acceptsI i, (fieldAt kids f).length ≤ 1) →
+    execI c orig vals nn (fmtSlots c kids) i n = some n' → KwOK kids n.kw → KwOK kids n'.kw
+  | .newTok .., n, n', _, h, hi => by simp only [execI] at h; cases h; exact hi
+  | .newTokVal .., n, n', _, h, hi => by simp only [execI] at h; cases h; exact hi
+  | .newTokReg .., n, n', _, h, hi => by simp only [execI] at h; cases h; exact hi
+  | .setFlag .., n, n', _, h, hi => by simp only [execI] at h; cases h; exact hi
+  | .setReg .., n, n', _, h, hi => by simp only [execI] at h; cases h; exact hi
+  | .clear .., n, n', _, h, hi => by simp only [execI] at h; cases h; exact hi
+  | .ws .., n, n', _, h, hi => by simp only [execI] at h; cases h; exact hi
+  | .indent .., n, n', _, h, hi => by simp only [execI] at h; cases h; exact hi
+  | .setHtml, n, n', _, h, hi => by simp only [execI] at h; cases h; exact hi
+  | .addIndent, n, n', _, h, hi => by simp only [execI] at h; cases h; exact hi
+  | .semi .., n, n', _, h, hi => by simp only [execI] at h; cases h; exact hi
+  | .setFF f, n, n', _, h, hi => by
+    simp only [execI] at h
+    split at h
+    · cases h; exact hi
+    · cases h
+  | .haltTail f id, n, n', _, h, hi => by
+    simp only [execI] at h
+    split at h
+    · cases h; exact hi
+    · cases h; exact hi
+  | .accept f, n, n', hs, h, hi => by
+    simp only [execI, fmtSlots_field] at h
+    have hlen := hs f (by simp [acceptsI])
+    cases hkf : fieldAt kids f with
+    | nil => rw [hkf] at h; simp [fmtForest] at h
+    | cons t rest =>
+      have hrest : rest = [] := by
+        rw [hkf] at hlen
+        cases rest with
+        | nil => rfl
+        | cons a b => simp at hlen
+      subst hrest
+      rw [hkf] at h
+      simp only [fmtForest] at h
+      split at h
+      · cases h
+      · rename_i t1 s1 h1
+        cases h
+        apply hi.set
+        rw [hkf]
+        simp [shapeForest, hk f t (by rw [hkf]; simp) _ _ _ h1]
+  | .fmtList g f sep, n, n', _, h, hi => by
+    simp only [execI, fmtSlots_field] at h
+    split at h
+    · cases h
+    · rename_i ts tks s hsep
+      cases h
+      have hsh := sepAll_shape c [] sep [sep] [(c.tWs, [32])] (fieldAt kids f) _ ts tks s (hk f) hsep
+      by_cases he : (fmtForest c (fieldAt kids f)).isEmpty = true
+      · cases g <;> simpa [he, NSt.setTok] using hi
+      · cases g <;> simpa [he, NSt.setTok] using hi.set f ts hsh
+  | .stmts f, n, n', _, h, hi => by
+    simp only [execI, fmtSlots_field] at h
+    split at h
+    · cases h
+    · rename_i ts s hst
+      cases h
+      have hsh := stmtsAll_shape c (fieldAt kids f) _ ts s (noKindSlots_field _ kids f hn) (hk f) hst
+      by_cases he : (fmtForest c (fieldAt kids f)).isEmpty = true
+      · simpa [he] using hi
+      · simpa [he] using hi.set f ts hsh
+  | .each f pre post, n, n', _, h, hi => by
+    simp only [execI, fmtSlots_field] at h
+    split at h
+    · cases h
+    · rename_i ts s hac
+      cases h
+      have hsh := acceptAll_shape c pre post (fieldAt kids f) _ ts s (hk f) hac
+      by_cases he : (fmtForest c (fieldAt kids f)).isEmpty = true
+      · simpa [he] using hi
+      · simpa [he] using hi.set f ts hsh
+  | .sepLoop f g pre id lit post, n, n', _, h, hi => by
+    simp only [execI, fmtSlots_field] at h
+    split at h
+    · cases h
+    · split at h
+      · cases h
+      · rename_i ts tks s hsep
+        cases h
+        have hsh := sepAll_shape c pre id lit post (fieldAt kids f) _ ts tks s (hk f) hsep
+        simpa [NSt.setTok] using hi.set f ts hsh
+  | .ite cd a b, n, n', hs, h, hi => by
+    simp only [execI] at h
+    have hsa : ∀ f ∈ acceptsIs a, (fieldAt kids f).length ≤ 1 := fun f hf => hs f (by simp [acceptsI, hf])
+    have hsb : ∀ f ∈ acceptsIs b, (fieldAt kids f).length ≤ 1 := fun f hf => hs f (by simp [acceptsI, hf])
+    split at h
+    · exact execIs_kw a n n' hsa h hi
+    · exact execIs_kw b n n' hsb h hi
+theorem execIs_kw : ∀ (is : List FI) (n n' : NSt), (∀ f ∈ acceptsIs is, (fieldAt kids f).length ≤ 1) →
+    execIs c orig vals nn (fmtSlots c kids) is n = some n' → KwOK kids n.kw → KwOK kids n'.kw
+  | [], n, n', _, h, hi => by simp only [execIs] at h; cases h; exact hi
+  | i :: r, n, n', hs, h, hi => by
+    simp only [execIs] at h
+    split at h
+    · cases h
+    · rename_i n1 h1
+      have hsi : ∀ f ∈ acceptsI i, (fieldAt kids f).length ≤ 1 := fun f hf => hs f (by simp [acceptsIs, hf])
+      have hsr : ∀ f ∈ acceptsIs r, (fieldAt kids f).length ≤ 1 := fun f hf => hs f (by simp [acceptsIs, hf])
+      exact execIs_kw r n1 n' hsr h (execI_kw i n n1 hsi h1 hi)
+end
+end shapeExec
+
+theorem mergeKids_shape : ∀ (kids : List (List Tree)) (kw : List (Option (List Tree))), KwOK kids kw →
+    shapeSlots (mergeKids kids kw) = shapeSlots kids
+  | [], _, _ => by simp [mergeKids, shapeSlots]
+  | o :: r, [], _ => by
+    have := mergeKids_shape r [] (by intro f l h; simp [getOv] at h)
+    simp [mergeKids, shapeSlots, this]
+  | o :: r, none :: w, h => by
+    have := mergeKids_shape r w (by intro f l hf; simpa [fieldAt] using h (f + 1) l (by simpa [getOv] using hf))
+    simp [mergeKids, shapeSlots, this]
+  | o :: r, some l :: w, h => by
+    have h0 := h 0 l (by simp [getOv])
+    have := mergeKids_shape r w (by intro f l' hf; simpa [fieldAt] using h (f + 1) l' (by simpa [getOv] using hf))
+    simp only [fieldAt, List.getElem?_cons_zero, Option.getD_some] at h0
+    simp [mergeKids, shapeSlots, this, h0]
+
+end PhpVerif.Fmt
+
+namespace PhpVerif.Fmt
+open PhpVerif
+
+/-- every `n.F.Accept(f)` of the instruction lists is on a single-child field of the schema -/
+def AccSingle (c : FCfg) (sch : Nat → List Nat) : Prop :=
+  ∀ k, ∀ f ∈ acceptsIs (c.prog k), ((sch k)[f]?).getD 0 = 3
+
+def ShapeKept (c : FCfg) (t : Tree) : Prop := ∀ s t' s', fmtTree c t s = some (t', s') → shape t' = shape t
+
+theorem fieldAt_len_of_kidsOK {sorts : List Nat} {kids : List (List Tree)} (h : kidsOK sorts kids) (f : Nat)
+    (hs : (sorts[f]?).getD 0 = 3) : (fieldAt kids f).length ≤ 1 := by
+  by_cases hf : f < kids.length
+  · exact h.2 f hf hs
+  · have : kids[f]? = none := by simp; omega
+    simp [fieldAt, this]
+
+section shapeTree
+variable (c : FCfg) (sch : Nat → List Nat) (hacc : AccSingle c sch)
+include hacc
+
+mutual
+theorem fmtTree_shape : ∀ t : Tree, t.WF sch → noKind c.htmlKind t = true → ShapeKept c t
+  | .mk k u p toks vals kids nn, hw, hno => by
+    intro s t' s' h
+    obtain ⟨_, _, _, _, hko, hws⟩ := hw
+    simp only [noKind, Bool.and_eq_true] at hno
+    have hk := fmtSlots_shape kids hws hno.2
+    simp only [fmtTree] at h
+    split at h
+    · cases h
+    · rename_i n hx
+      cases h
+      have hs : ∀ f ∈ acceptsIs (c.prog k), (fieldAt kids f).length ≤ 1 :=
+        fun f hf => fieldAt_len_of_kidsOK hko f (hacc k f hf)
+      have hkw := execIs_kw c toks vals nn kids hk hno.2 (c.prog k) _ n hs hx
+        (by intro f l hf; simp [getOv] at hf)
+      simp [shape, mergeKids_shape kids n.kw hkw]
+theorem fmtSlots_shape : ∀ kids : List (List Tree), wfSlots sch kids → noKindSlots c.htmlKind kids = true →
+    ∀ f, ∀ t ∈ fieldAt kids f, ShapeKept c t
+  | [], _, _ => by intro f t ht; simp [fieldAt] at ht
+  | x :: xs, hw, hno => by
+    intro f t ht
+    simp only [noKindSlots, Bool.and_eq_true] at hno
+    cases f with
+    | zero => exact fmtForest_shape x hw.1 hno.1 t (by simpa [fieldAt] using ht)
+    | succ f => exact fmtSlots_shape xs hw.2 hno.2 f t (by simpa [fieldAt] using ht)
+theorem fmtForest_shape : ∀ ts : List Tree, wfForest sch ts → noKindForest c.htmlKind ts = true →
+    ∀ t ∈ ts, ShapeKept c t
+  | [], _, _ => by intro t ht; simp at ht
+  | x :: xs, hw, hno => by
+    intro t ht
+    simp only [noKindForest, Bool.and_eq_true] at hno
+    cases List.mem_cons.mp ht with
+    | inl e => rw [e]; exact fmtTree_shape x hw.1 hno.1
+    | inr e => exact fmtForest_shape xs hw.2 hno.2 t e
+end
+end shapeTree
 
 end PhpVerif.Fmt
